@@ -2,6 +2,7 @@ import XPathV.Lemmas.FlatOrder
 import XPathV.Model.Api
 import XPathV.Lemmas.Facts
 import XPathV.Lemmas.PosSem
+import XPathV.Lemmas.PosSem2
 /-!
 # C03 — positional predicates on child steps use the XPath proximity position
 -/
@@ -323,5 +324,150 @@ every form with the literal `2` and every bound -/
 theorem C03_side_conditions_satisfiable (f : PosForm) (hf : ∀ lex, (f = .lit lex ∨ (∃ cop pfx, f = .posCmp cop pfx lex) ∨
     ∃ pfx, f = .lastMinus pfx lex) → lex = "2") (N : Nat) : @PosForm.NumOK Int toyAlg f 2 N :=
   @toy_numOK f hf N
+
+end XPathV.Theorems.C03
+
+/-! ## The same on the extended C02 fragment `Frag2`
+
+Input paths and following boolean predicates of `PredSem2.Frag2`: count / contains / starts-with /
+local-name predicates, `(P)[b]`, path-vs-path and path-vs-string comparisons with the six operators
+(proofs in `Lemmas/PosSem2.lean`).  `Frag k e → Frag2 k e` (`PredSem2.frag2_of_frag`), so these
+statements contain the ones above. -/
+namespace XPathV.Theorems.C03
+open XPathV XPathV.Model XPathV.Facts NumAlg
+
+variable {F : Type} [NumAlg F]
+
+open XPathV.PathSem XPathV.PredSem XPathV.PredSem2 XPathV.PosSem in
+/-- **C03 (main theorem, through the builder) on the whole C02 fragment `Frag2`**: `C03_main` with
+the input path `q` in `Frag2 true` — e.g. `a[b < c]/x[2]`, `(r)[y = z]/x[last()]`,
+`a[count(b) = 2]/x[position() < 3]`, `a[contains(b, 'k')]/x[last() - 1]` -/
+theorem C03_main_full {d : Doc} (wf : WF d) (cfg : ECfg) (hns : cfg.nsIface = true) (hinj : HashInj d cfg)
+    (regexOk : RegexOk) (limit : Nat) (a : AxisInfo) (ha : a.axis = "child") (q : Ast) (hq : Frag2 true q)
+    (f : PosForm) (hag : f.Agree F d.length) (st : BState) (o : BOut)
+    (hb : build regexOk limit true false (.filter (.axis a q) f.ast) {} st = .ok o)
+    (c : Ref) (hc : validRef d c = true) :
+    ∃ out ns g origins g0, sel (F := F) d cfg o.q c = .ok out ∧
+      Spec.eval (F := F) d (.filter (.axis a q) f.ast) ⟨c, 1, 1⟩ = .ok (.val (.nodes ns) g) ∧
+      Spec.eval (F := F) d q ⟨c, 1, 1⟩ = .ok (.val (.nodes origins) g0) ∧
+      (∀ x, x ∈ refs out ↔ x ∈ ns) ∧
+      (∀ x, x ∈ ns ↔ ∃ p ∈ origins, ∃ k, (childCands d cfg a p)[k]? = some x ∧
+        PosForm.specKeep F f (k + 1) (childCands d cfg a p).length = true) :=
+  PosSem2.C03_main2 wf cfg hns hinj regexOk limit a ha q hq f hag st o hb c hc
+
+open XPathV.PathSem XPathV.PredSem XPathV.PredSem2 XPathV.PosSem in
+/-- `C03_main_full` without the `HashInj` hypothesis (`hashInj_holds`; the side condition left is
+"no element has two attributes with the same prefix, name and value") -/
+theorem C03_main_full_unconditional {d : Doc} (wf : WF d) (cfg : ECfg) (hns : cfg.nsIface = true)
+    (hattr : AttrTriplesDistinct d)
+    (regexOk : RegexOk) (limit : Nat) (a : AxisInfo) (ha : a.axis = "child") (q : Ast) (hq : Frag2 true q)
+    (f : PosForm) (hag : f.Agree F d.length) (st : BState) (o : BOut)
+    (hb : build regexOk limit true false (.filter (.axis a q) f.ast) {} st = .ok o)
+    (c : Ref) (hc : validRef d c = true) :
+    ∃ out ns g origins g0, sel (F := F) d cfg o.q c = .ok out ∧
+      Spec.eval (F := F) d (.filter (.axis a q) f.ast) ⟨c, 1, 1⟩ = .ok (.val (.nodes ns) g) ∧
+      Spec.eval (F := F) d q ⟨c, 1, 1⟩ = .ok (.val (.nodes origins) g0) ∧
+      (∀ x, x ∈ refs out ↔ x ∈ ns) ∧
+      (∀ x, x ∈ ns ↔ ∃ p ∈ origins, ∃ k, (childCands d cfg a p)[k]? = some x ∧
+        PosForm.specKeep F f (k + 1) (childCands d cfg a p).length = true) :=
+  C03_main_full wf cfg hns (PathSem.hashInj_holds wf hattr cfg) regexOk limit a ha q hq f hag st o hb
+    c hc
+
+open XPathV.PathSem XPathV.PredSem XPathV.PredSem2 XPathV.PosSem in
+/-- **C03 on natural numbers on `Frag2`**: `C03_on_naturals` with the input path in `Frag2 true` -/
+theorem C03_on_naturals_full {d : Doc} (wf : WF d) (cfg : ECfg) (hns : cfg.nsIface = true) (hinj : HashInj d cfg)
+    (regexOk : RegexOk) (limit : Nat) (a : AxisInfo) (ha : a.axis = "child") (q : Ast) (hq : Frag2 true q)
+    (f : PosForm) (n : Nat) (hnum : f.NumOK F n d.length) (st : BState) (o : BOut)
+    (hb : build regexOk limit true false (.filter (.axis a q) f.ast) {} st = .ok o)
+    (c : Ref) (hc : validRef d c = true) :
+    ∃ out ns g origins g0, sel (F := F) d cfg o.q c = .ok out ∧
+      Spec.eval (F := F) d (.filter (.axis a q) f.ast) ⟨c, 1, 1⟩ = .ok (.val (.nodes ns) g) ∧
+      Spec.eval (F := F) d q ⟨c, 1, 1⟩ = .ok (.val (.nodes origins) g0) ∧
+      (∀ x, x ∈ refs out ↔ x ∈ ns) ∧
+      (∀ x, x ∈ ns ↔ ∃ p ∈ origins, ∃ k, (childCands d cfg a p)[k]? = some x ∧
+        f.natKeep n (k + 1) (childCands d cfg a p).length = true) :=
+  PosSem2.C03_main_nat2 wf cfg hns hinj regexOk limit a ha q hq f n hnum st o hb c hc
+
+open XPathV.PathSem XPathV.PredSem XPathV.PredSem2 XPathV.PosSem in
+/-- `C03_on_naturals_full` without the `HashInj` hypothesis (`hashInj_holds`) -/
+theorem C03_on_naturals_full_unconditional {d : Doc} (wf : WF d) (cfg : ECfg) (hns : cfg.nsIface = true)
+    (hattr : AttrTriplesDistinct d)
+    (regexOk : RegexOk) (limit : Nat) (a : AxisInfo) (ha : a.axis = "child") (q : Ast) (hq : Frag2 true q)
+    (f : PosForm) (n : Nat) (hnum : f.NumOK F n d.length) (st : BState) (o : BOut)
+    (hb : build regexOk limit true false (.filter (.axis a q) f.ast) {} st = .ok o)
+    (c : Ref) (hc : validRef d c = true) :
+    ∃ out ns g origins g0, sel (F := F) d cfg o.q c = .ok out ∧
+      Spec.eval (F := F) d (.filter (.axis a q) f.ast) ⟨c, 1, 1⟩ = .ok (.val (.nodes ns) g) ∧
+      Spec.eval (F := F) d q ⟨c, 1, 1⟩ = .ok (.val (.nodes origins) g0) ∧
+      (∀ x, x ∈ refs out ↔ x ∈ ns) ∧
+      (∀ x, x ∈ ns ↔ ∃ p ∈ origins, ∃ k, (childCands d cfg a p)[k]? = some x ∧
+        f.natKeep n (k + 1) (childCands d cfg a p).length = true) :=
+  C03_on_naturals_full wf cfg hns (PathSem.hashInj_holds wf hattr cfg) regexOk limit a ha q hq f n
+    hnum st o hb c hc
+
+open XPathV.PathSem XPathV.PredSem XPathV.PredSem2 XPathV.PosSem in
+/-- **followed by boolean predicates, on `Frag2`**: `q/child::a[f][b1]…[bk]` with `q` in
+`Frag2 true` and every `bi` in `Frag2 false` — e.g. `a[2][b < c]`, `a[last()][count(b) = 1]`,
+`a[position() < 3][contains(b, 'k')]`: per input node, the candidates whose proximity position
+satisfies `f` and on which every `bi` holds; the oracle agrees -/
+theorem C03_then_boolean_predicates_full {d : Doc} (wf : WF d) (cfg : ECfg) (hns : cfg.nsIface = true)
+    (hinj : HashInj d cfg) (regexOk : RegexOk) (limit : Nat) (a : AxisInfo) (ha : a.axis = "child")
+    (q : Ast) (hq : Frag2 true q) (f : PosForm) (hag : f.Agree F d.length) (bs : List Ast)
+    (hbs : ∀ b ∈ bs, Frag2 false b) (st : BState) (o : BOut)
+    (hb : build regexOk limit true false (stackAst (.filter (.axis a q) f.ast) bs) {} st = .ok o) :
+    ∃ qi, ∀ c, validRef d c = true → PosChainOK F d cfg a f bs o.q qi q ⟨c, 1, 1⟩ :=
+  PosSem2.C03_chain2 wf cfg hns hinj regexOk limit a ha q hq f hag bs hbs st o hb
+
+open XPathV.PathSem XPathV.PredSem XPathV.PredSem2 XPathV.PosSem in
+/-- `C03_then_boolean_predicates_full` without the `HashInj` hypothesis (`hashInj_holds`) -/
+theorem C03_then_boolean_predicates_full_unconditional {d : Doc} (wf : WF d) (cfg : ECfg)
+    (hns : cfg.nsIface = true) (hattr : AttrTriplesDistinct d) (regexOk : RegexOk) (limit : Nat)
+    (a : AxisInfo) (ha : a.axis = "child")
+    (q : Ast) (hq : Frag2 true q) (f : PosForm) (hag : f.Agree F d.length) (bs : List Ast)
+    (hbs : ∀ b ∈ bs, Frag2 false b) (st : BState) (o : BOut)
+    (hb : build regexOk limit true false (stackAst (.filter (.axis a q) f.ast) bs) {} st = .ok o) :
+    ∃ qi, ∀ c, validRef d c = true → PosChainOK F d cfg a f bs o.q qi q ⟨c, 1, 1⟩ :=
+  C03_then_boolean_predicates_full wf cfg hns (PathSem.hashInj_holds wf hattr cfg) regexOk limit a ha
+    q hq f hag bs hbs st o hb
+
+end XPathV.Theorems.C03
+
+namespace XPathV.Theorems.C03
+open XPathV XPathV.Model XPathV.Facts NumAlg
+
+variable {F : Type} [NumAlg F]
+
+open XPathV.PathSem XPathV.PredSem XPathV.PredSem2 XPathV.PosSem in
+/-- **`C03_position_after_steps` with the input path in `Frag2`** (the condition stays in `PosCond`:
+its boolean parts and compared paths are those of the smaller fragment `Frag`) -/
+theorem C03_position_after_steps_full {d : Doc} (wf : WF d) (cfg : ECfg) (hns : cfg.nsIface = true)
+    (hinj : HashInj d cfg) (regexOk : RegexOk) (limit : Nat) (a : AxisInfo) (ha : a.axis = "child")
+    (q : Ast) (hq : Frag2 true q) (cond : Ast) (hcond : PosCond cond) (st : BState) (o : BOut)
+    (hb : build regexOk limit true false (.filter (.axis a q) cond) {} st = .ok o)
+    (c : Ref) (hc : validRef d c = true) :
+    ∃ out ns g origins g0, sel (F := F) d cfg o.q c = .ok out ∧
+      Spec.eval (F := F) d (.filter (.axis a q) cond) ⟨c, 1, 1⟩ = .ok (.val (.nodes ns) g) ∧
+      Spec.eval (F := F) d q ⟨c, 1, 1⟩ = .ok (.val (.nodes origins) g0) ∧
+      (∀ x, x ∈ refs out ↔ x ∈ ns) ∧
+      (∀ x, x ∈ ns ↔ ∃ p ∈ origins, ∃ k, (childCands d cfg a p)[k]? = some x ∧
+        condTruth F d cond x (k + 1) (childCands d cfg a p).length = true) :=
+  PosSem2.C03_after_steps2 wf cfg hns hinj regexOk limit a ha q hq cond hcond st o hb c hc
+
+open XPathV.PathSem XPathV.PredSem XPathV.PredSem2 XPathV.PosSem in
+/-- `C03_position_after_steps_full` without the `HashInj` hypothesis (`hashInj_holds`) -/
+theorem C03_position_after_steps_full_unconditional {d : Doc} (wf : WF d) (cfg : ECfg)
+    (hns : cfg.nsIface = true) (hattr : AttrTriplesDistinct d) (regexOk : RegexOk) (limit : Nat)
+    (a : AxisInfo) (ha : a.axis = "child") (q : Ast) (hq : Frag2 true q) (cond : Ast)
+    (hcond : PosCond cond) (st : BState) (o : BOut)
+    (hb : build regexOk limit true false (.filter (.axis a q) cond) {} st = .ok o)
+    (c : Ref) (hc : validRef d c = true) :
+    ∃ out ns g origins g0, sel (F := F) d cfg o.q c = .ok out ∧
+      Spec.eval (F := F) d (.filter (.axis a q) cond) ⟨c, 1, 1⟩ = .ok (.val (.nodes ns) g) ∧
+      Spec.eval (F := F) d q ⟨c, 1, 1⟩ = .ok (.val (.nodes origins) g0) ∧
+      (∀ x, x ∈ refs out ↔ x ∈ ns) ∧
+      (∀ x, x ∈ ns ↔ ∃ p ∈ origins, ∃ k, (childCands d cfg a p)[k]? = some x ∧
+        condTruth F d cond x (k + 1) (childCands d cfg a p).length = true) :=
+  C03_position_after_steps_full wf cfg hns (PathSem.hashInj_holds wf hattr cfg) regexOk limit a ha q
+    hq cond hcond st o hb c hc
 
 end XPathV.Theorems.C03
